@@ -21,9 +21,11 @@ class IterError(Exception):
 class Tasks:
     """Instrumented input iterable: counts items taken, detects re-entrant / concurrent next()."""
 
-    def __init__(self, sim, call_no, n, fn, fail_at=None, log=None, has_len=False, slow_at=None, slow_until=None):
+    def __init__(self, sim, call_no, n, fn, fail_at=None, log=None, has_len=False, slow_at=None, slow_until=None,
+                 iter_raises=False):
         self.sim, self.call_no, self.n, self.fn, self.fail_at = sim, call_no, n, fn, fail_at
         self.slow_at, self.slow_until = slow_at, slow_until      # a lazy producer that is slow at one item
+        self.iter_raises = iter_raises
         self.i = 0
         self.busy = False
         self.log = log if log is not None else []
@@ -32,6 +34,9 @@ class Tasks:
             self.__len__ = lambda: n
 
     def __iter__(self):
+        if self.iter_raises:
+            self.log.append(("iter-raise", self.call_no, -1))
+            raise IterError("__iter__ failed")
         return self
 
     def __next__(self):
@@ -269,8 +274,11 @@ def run(cfg, sched):
         kw = {}
         if cfg.get("timeout") is not None:
             kw["timeout"] = cfg["timeout"]
+        if cfg.get("verbose"):
+            kw["verbose"] = cfg["verbose"]
         p = jp.Parallel(n_jobs=cfg["n_workers"], backend=be, pre_dispatch=cfg.get("pre_dispatch", "2*n_jobs"),
                         batch_size=cfg.get("batch_size", 1), return_as=cfg.get("return_as", "list"), **kw)
+        p._print = lambda msg: sim.events.append(("print", str(msg)[:60]))     # progress output is not the subject
         if hasattr(p, "_lock"):
             p._lock = parsim.SimLock(sim)
         out.parallel = p
@@ -288,6 +296,7 @@ def run(cfg, sched):
                     rec = {"call": call_no, "result": None, "exc": None, "taken_before": len(out.iter_log)}
                     tasks = Tasks(sim, call_no, c["n_tasks"], task, c.get("iter_fail_at"), out.iter_log,
                                   has_len=c.get("has_len", False), slow_at=c.get("slow_at"),
+                                  iter_raises=c.get("iter_raises", False),
                                   slow_until=(lambda: bool(p._aborting)) if c.get("slow_at") is not None else None)
                     rec["tasks"] = tasks
                     try:
